@@ -65,6 +65,7 @@ type c01xGen struct {
 	flags   bool
 	allow8H bool
 	nlabel  int
+	depth   int
 	pending []string // forward labels to place
 }
 
@@ -125,7 +126,42 @@ func (g *c01xGen) step() {
 	r := g.r
 	w := pick(r, c01xWidths)
 	any := func() int { return r.intn(g.p.nvirt) }
-	switch k := r.intn(22); k {
+	nk := 24
+	if g.depth > 0 {
+		nk = 22 // no nested control-flow shapes
+	}
+	switch k := r.intn(nk); k {
+	case 22: // unconditional jump to the label that follows it (pruned by the clean-up pass), possibly with the
+		// target of an earlier branch placed in between: `JMP done; other: done:`
+		l := fmt.Sprintf("L%d", g.nlabel)
+		g.nlabel++
+		g.emit("JMP", c01xOperand{virt: -1, label: l})
+		if len(g.pending) > 0 && r.chance(1, 2) {
+			g.p.instrs = append(g.p.instrs, c01xInstr{label: g.pending[0]})
+			g.pending = g.pending[1:]
+		}
+		g.p.instrs = append(g.p.instrs, c01xInstr{label: l})
+		g.flags = false
+	case 23: // if/else diamond: Jcc else; then...; JMP end; else: ...; end:
+		if !g.flags {
+			return
+		}
+		le, ld := fmt.Sprintf("L%d", g.nlabel), fmt.Sprintf("L%d", g.nlabel+1)
+		g.nlabel += 2
+		g.emit("J"+pick(r, c01xCond), c01xOperand{virt: -1, label: le})
+		g.depth++
+		for n := r.intn(4); n > 0; n-- {
+			g.step()
+		}
+		g.emit("JMP", c01xOperand{virt: -1, label: ld})
+		g.p.instrs = append(g.p.instrs, c01xInstr{label: le})
+		g.flags = false
+		for n := r.intn(4); n > 0; n-- {
+			g.step()
+		}
+		g.depth--
+		g.p.instrs = append(g.p.instrs, c01xInstr{label: ld})
+		g.flags = false
 	case 0, 1: // define / overwrite from immediate
 		v := any()
 		if w.s == reg.S64 {
